@@ -151,6 +151,11 @@ Differs(a, b) ==
     \/ \E f \in DOMAIN a.fields \cap DOMAIN b.fields :
           \/ a.fields[f].kind # b.fields[f].kind
           \/ ~SameVal(a.fields[f], a.vals[f], b.vals[f])
+          \* values of different Go types are different values, however they print
+          \* (two nil values of different kinds are left undecided)
+          \/ /\ a.fields[f].kind = "attr"
+             /\ (a.fields[f].k # b.fields[f].k \/ a.fields[f].null # b.fields[f].null)
+             /\ ~(a.vals[f].nil /\ b.vals[f].nil)
 \* obs = [eq_ab, eq_ba, st_ab, st_ba, eq_aa, st_aa, eq_bb, st_bb]
 EqOK(a, b, o) ==
     /\ o.eq_aa /\ o.st_aa /\ o.eq_bb /\ o.st_bb
